@@ -279,6 +279,32 @@ fn c11_directed(ctx: &WorkerCtx) -> Result<(), Fail> {
         }
     }
     st.class("directed: every named root and its mirror, unplayed");
+    // the engine's own wall-clock timeout with budgets that expire at once (0, 1 us, 1 ms, 3 ms):
+    // the oracle (no panic, legal move or none) does not depend on when it fires
+    if ctx.idx == 0 {
+        for (i, fen) in ROOTS.iter().enumerate().take(24) {
+            let pos = Pos::from_fen(fen).expect("root");
+            let b = to_board(&pos).map_err(|d| Fail { case: json!({"fen": fen}), detail: d })?;
+            let legal = pos.legal();
+            for budget_us in [0u64, 1, 1000, 3000] {
+                let r = guarded(|| {
+                    let t = chess_engine::DurationTimeout::new(std::time::Duration::from_micros(budget_us));
+                    let mut e = chess_engine::Engine::default();
+                    e.positional = i % 2 == 0;
+                    e.search(&b, &ThreeFold::new(), &t)
+                });
+                let case = json!({"duration_timeout_us": budget_us, "fen": fen});
+                match r {
+                    Err(p) => return Err(Fail { case, detail: format!("C11 search of `{fen}` under DurationTimeout of {budget_us} us: {p}") }),
+                    Ok((Some(m), _)) if !legal.contains(&from_cm(m)) => return Err(Fail { case, detail: format!("C11 search of `{fen}` under DurationTimeout of {budget_us} us returns illegal {}", from_cm(m)) }),
+                    Ok((Some(_), _)) if legal.is_empty() => return Err(Fail { case, detail: format!("C11 search of `{fen}` (no legal move) returns a move") }),
+                    _ => {}
+                }
+                st.eval(1);
+            }
+        }
+        st.class("directed: DurationTimeout with budgets of 0 .. 3 ms");
+    }
     let mut g = Expand(ctx.wseed(1111));
     let mut made = 0;
     for _ in 0..400 {
@@ -305,7 +331,22 @@ pub const C11: CheckDef = CheckDef {
         ctx.max_shrink.set(150);
         run_proptest(ctx, 11, ctx.share(ctx.tier.pick(2_000, 30_000)), eng_strategy(22, 40), eng_json, move |c, st| c11_case(c, st, dense))
     },
-    replay: |v| c11_case(&eng_from(v)?, &mut Stats::new(), 1500),
+    replay: |v| {
+        if let Some(us) = v.get("duration_timeout_us").and_then(|x| x.as_u64()) {
+            let fen = v["fen"].as_str().ok_or("fen")?;
+            let pos = Pos::from_fen(fen).ok_or("bad fen")?;
+            let b = to_board(&pos)?;
+            let t = chess_engine::DurationTimeout::new(std::time::Duration::from_micros(us));
+            let (mv, _) = chess_engine::Engine::default().search(&b, &ThreeFold::new(), &t);
+            if let Some(m) = mv {
+                if !pos.legal().contains(&from_cm(m)) {
+                    return Err(format!("C11 illegal move {} under DurationTimeout", from_cm(m)));
+                }
+            }
+            return Ok(());
+        }
+        c11_case(&eng_from(v)?, &mut Stats::new(), 1500)
+    },
     rule: "case = position reached by a generated playout (optionally with the repetition table pre-filled along it); one instrumented unlimited run gives the poll counts s_1,s_2,s_3 at which deepening passes start; then the search is run with the limit first reporting expiry at poll k for EVERY k in 0..=min(s_2, 400 quick / 1500 thorough), s_i-3..s_i+3, generated values up to the total, and total+1. Oracle per k: returns within 10000 polls after expiry, no panic (for k <= 48, around every boundary and at the total also with INFO/DEBUG logging enabled and every event field formatted: same move, no panic), move is None or reference-legal, None when no legal move exists, Some when k >= s_1, Some is monotone in k. evaluations = (position,k) searches. Non-trivial = 0 < k < s_3 on a position whose first pass finished; distinct by (position key, k).",
     assumptions: &[
         "the engine consults the Timeout only through is_complete(); expiry is monotone (once true, always true)",
